@@ -83,26 +83,43 @@ fn run_case(out: &mut Out, run: usize, case: &Value) {
     }
     let _ = guarded(|| engine.stop());
     kolibrie::verif::event(json!({"ev":"stopped"}).to_string());
-    // quiescence: the worker / coordinator threads drain their channels after stop()
-    let mut last = 0usize;
-    let mut stable = Instant::now();
-    let t0 = Instant::now();
+    // quiescence, decided by events rather than by timing: every window worker logs `worker-exit` when its channel
+    // is closed and drained (stop() closes it); dropping the engine then disconnects the coordinator, which logs
+    // `coordinator-exit`.  A thread that does not get there within a generous deadline is a tool problem.
     let mut log: Vec<String> = Vec::new();
-    loop {
-        std::thread::sleep(Duration::from_millis(if multi { 15 } else { 1 }));
-        log.extend(kolibrie::verif::take_log());
-        if log.len() != last { last = log.len(); stable = Instant::now(); }
-        let quiet = stable.elapsed() > Duration::from_millis(if multi { 150 } else { 2 });
-        if quiet || t0.elapsed() > Duration::from_secs(5) { break; }
+    let mut timed_out = false;
+    let has = |log: &Vec<String>, ev: &str, win: &str| log.iter().any(|l| l.contains(&format!("\"ev\":\"{ev}\"")) && l.contains(&format!("{}", serde_json::to_string(win).unwrap())));
+    if multi {
+        let t0 = Instant::now();
+        loop {
+            log.extend(kolibrie::verif::take_log());
+            if my_windows.iter().all(|w| has(&log, "worker-exit", w)) { break; }
+            if t0.elapsed() > Duration::from_secs(60) { timed_out = true; break; }
+            std::thread::sleep(Duration::from_millis(2));
+        }
     }
+    let expect_coordinator = multi && case["coordinator"].as_bool().unwrap_or(false);
     drop(engine);
+    if expect_coordinator && !timed_out {
+        let t0 = Instant::now();
+        loop {
+            log.extend(kolibrie::verif::take_log());
+            if my_windows.iter().any(|w| has(&log, "coordinator-exit", w)) { break; }
+            if t0.elapsed() > Duration::from_secs(60) { timed_out = true; break; }
+            std::thread::sleep(Duration::from_millis(2));
+        }
+    }
     log.extend(kolibrie::verif::take_log());
+    if timed_out {
+        log.push(json!({"ev":"timeout"}).to_string());
+    }
     for (i, line) in log.iter().enumerate() {
         let mut v: Value = serde_json::from_str(line).unwrap_or(json!({"ev":"garbled"}));
         v["seq"] = json!(i + 1);
         let stray = match v["ev"].as_str() {
             Some("emit") => v["run"].as_u64() != Some(run as u64),
-            Some("fire") | Some("query") => !my_windows.is_empty() && !my_windows.iter().any(|w| Some(w.as_str()) == v["win"].as_str()),
+            Some("fire") | Some("query") | Some("worker-exit") => !my_windows.is_empty() && !my_windows.iter().any(|w| Some(w.as_str()) == v["win"].as_str()),
+            Some("coordinator-exit") => !v["wins"].as_array().map(|a| a.iter().any(|x| my_windows.iter().any(|w| Some(w.as_str()) == x.as_str()))).unwrap_or(false),
             _ => false,
         };
         if stray { continue; }
